@@ -263,6 +263,13 @@ def run_case(scheme, cert_reqs, check_hostname, trust, server_hostname, server_c
     if th.is_alive():
         return ({"kind": "server-thread-stuck"}, "%s: server thread did not finish" % label)
     sig = {"kind": "tls", "trust": trust if trust.startswith("context") else "options"}
+    if scheme != scheme.lower():
+        # an upper / mixed case spelling of the scheme: refusing it (ValueError before any byte is sent) is fine; accepting it means it IS a
+        # wss target and everything below applies
+        if isinstance(exc, ValueError) and not out.get("first_bytes"):
+            return None
+        sig["scheme_case"] = scheme
+        scheme = scheme.lower()
     if scheme == "ws":
         if not out.get("first_bytes", b"").startswith(b"GET ") or out.get("tls_established") or cssl.contexts:
             return (dict(sig, kind="ws-wrapped"), "%s: a ws:// target was wrapped or a TLS context created (first bytes %r, contexts %d)" % (label, out.get("first_bytes"), cssl.contexts))
@@ -332,6 +339,10 @@ def run_task(desc):
         for cr, chk, tr in itertools.product(CERT_REQS, CHECK_HOST, TRUST[:5]):
             for route in ROUTES[:1]:
                 run("ws", cr, chk, tr, "absent", "ca-good", route)
+        for spelled in ("WSS", "Wss", "wsS"):
+            for tr, sc in itertools.product(("none", "ca_certs"), SERVER_CERT):
+                for route in ROUTES:
+                    run(spelled, "absent", "absent", tr, "absent", sc, route)
         res["samples"].append({"scheme": "ws", "configurations": n})
     else:
         trust = TRUST[desc["trust"]]
